@@ -5764,3 +5764,11 @@ let cover_b p m =
               (mem_nat o covered)) (mem_nat o pinned)
         | _ -> true)
      | _ -> true)) (imap (fun o x -> (o, x)) m.heap)
+
+(** val maps_owned_b : machine -> bool **)
+
+let maps_owned_b m =
+  forallb (fun x ->
+    (||)
+      ((||) ((||) (negb x.o_ismap) (negb (is_alloc x))) (negb (is_live x)))
+      (negb (N.eqb x.o_hdr.h_rc N0))) m.heap
